@@ -62,6 +62,12 @@ func scalarsStoredVerbatim(r *core.Run) {
 						}
 						if ret, ok := n.(*ast.ReturnStmt); ok && len(ret.Results) > 0 && hit == "" {
 							hit = tainted(cd, ret.Results[0], depth+1)
+							// a parameter handed back: what the caller passed for it
+							if id, isID := core.Unparen(ret.Results[0]).(*ast.Ident); isID && hit == "" {
+								if pi := paramIndex(info, cd, info.ObjectOf(id)); pi >= 0 && pi < len(x.Args) {
+									hit = tainted(fd, x.Args[pi], depth+1)
+								}
+							}
 						}
 						return true
 					})
